@@ -52,6 +52,11 @@ claim("C01", "polynomial/structural def-use forms (buffer size, frame expansion)
 claim("C17", "resolved delegation chain of the trait impls + read-set/control-dependence of the times field + taint from (sampling rate, frame period) + dominance/post-dominance pairing of pushes + panic ledger and `?`-propagation rules over the label reader, over rustc MIR",
       "Sound static decision that the four label input forms converge on one constructor with the same labels, that time stamps are read only under the alignment flag and cannot influence the parsed labels, that blank lines are the only silently skipped lines and every other line pushes exactly one label and one time pair or returns an error, and that no panic-capable construct in the reader is unaudited (fallible parses are propagated as LabelError -> EngineError). jlabel's own parser is a model entry in the quick tier and scanned in the thorough tier.")
 
+claim("C15", "closed-form constant checks + write-set and polynomial/clamp normal form of the shift's single store + call-site uniqueness + access-path taint (non-interference) through the pipeline wiring incl. closures, over rustc MIR",
+      "Sound static decision that the shift constant is ln2/12 and the clamp bounds ln20/ln20000, that the shift writes only the mean of the static log-F0 component as clamp(old + h*HALF_TONE, MIN, MAX) and nothing for h = 0, that it is applied exactly once to stream 1 before MLPG, and that condition.additional_half_tone reaches only the lf0 trajectory (not durations, spectrum, LPF, vocoder, nor any branch).")
+claim("C11", "normal form of the voicing predicate + index agreement and parameter->field roles at the three pipeline call sites + access-path taint for 6 sources (per-stream threshold and GV weight) + const-item identity of the no-data marker between writer and reader, over rustc MIR",
+      "Sound static decision that a frame's voicing flag is `msd > threshold` (strict, hence antitone in the threshold), that each stream's MlpgAdjust receives the threshold/GV weight/model of its own index and lands in the SpeechGenerator parameter of that stream, that msd_threshold[k] and gv_weight[k] influence only stream k's trajectory, that unvoiced frames carry the NODATA const item which the vocoder maps to period 0 and period 0 selects noise, and that non-MSD streams get a sentinel above every threshold.")
+
 
 def main():
     props = [json.loads(l) for l in open(os.path.join(VERIF, "properties.jsonl"))]
